@@ -220,7 +220,15 @@ impl Story {
         // Report any errors that occured during evaluation.
         // This may either have been StoryExceptions that were thrown
         // and caught during evaluation, or directly added with AddError.
-        if self.get_state().has_error() || self.get_state().has_warning() {
+        //
+        // A time-limited continue that paused before the line was complete keeps
+        // its warnings pending: the look-ahead state they were raised in may still
+        // be rewound (and the snapshot it is rewound to holds its own copy), so
+        // handing them over now would deliver the same warning again later.
+        // (An error always ends the continue, so errors are never held back.)
+        if !self.async_continue_active
+            && (self.get_state().has_error() || self.get_state().has_warning())
+        {
             match &self.on_error {
                 Some(on_err) => {
                     if self.get_state().has_error() {
